@@ -969,6 +969,26 @@ class MailExecutor(UnitsExecutor):
         return out
 
     # ------------------------------------------------------------ dispatch (router) --
+    def e_Call(self, n, st):
+        """f(..., **d) with d a dict of concrete string keys: the entries are passed as keyword arguments"""
+        if not any(k.arg is None for k in n.keywords) or self.is_logger_call(n):
+            return super().e_Call(n, st)
+        out = []
+        for (s, f) in self.ev(n.func, st):
+            for (s2, args) in self.ev_list(n.args, s):
+                for (s3, kwvals) in self.ev_list([k.value for k in n.keywords], s2):
+                    kwargs = {}
+                    for k, v in zip(n.keywords, kwvals):
+                        if k.arg is not None:
+                            kwargs[k.arg] = v
+                            continue
+                        d = s3.obj(v.ref).data if isinstance(v, VRef) and s3.obj(v.ref).kind == "dict" else (v.items if isinstance(v, VDictC) else None)
+                        if d is None or not all(isinstance(key, str) for key in d):
+                            raise Unsupported(f"{self.loc(n)} ** of something that is not a dict with constant str keys")
+                        kwargs.update(d)
+                    out.extend(self.call(s3, f, args, kwargs, n))
+        return out
+
     # modules whose private helpers without a contract are SUMMARISED (not executed): a deterministic function of the arguments,
     # result kind from the return annotation; which helper it is does not matter to the clauses that read the result (they look
     # at the arguments and at "same helper for every field"), so renaming / re-implementing a helper re-verifies
@@ -1222,6 +1242,21 @@ class MailExecutor(UnitsExecutor):
         return st, VSeq(ln, lambda k: X._val(ekind, z3.Select(arr, k)), ekind, tag=("filtermap", length, keep_fn, el))
 
 
+def separator_pattern_name(repo=None):
+    """Name of the module-level compiled pattern the mailbox splitter runs `finditer` on -- read from the real source (whatever
+    the constant is called); 'MBOX_FROM_PATTERN' when the shape is not recognised (the obligations then end `unknown`)."""
+    try:
+        m = loader.module(MBOX, repo)
+        fn = m.functions.get("_split_mbox_messages")
+        names = [n.func.value.id for n in ast.walk(fn) if isinstance(n, ast.Call) and isinstance(n.func, ast.Attribute)
+                 and n.func.attr == "finditer" and isinstance(n.func.value, ast.Name) and n.func.value.id in m.assigns]
+        if len(set(names)) == 1:
+            return names[0]
+    except Exception:  # noqa
+        pass
+    return "MBOX_FROM_PATTERN"
+
+
 def _empty_seq(kind):
     es = X._sort_of_kind(kind)
     if es is None:
@@ -1341,7 +1376,7 @@ def install(reg):
 
     # ---- re ----------------------------------------------------------------
     pat = VExt("RePattern", z3.Const("re:MBOX_FROM_PATTERN", PatS))
-    reg.module_consts[(MBOX, "MBOX_FROM_PATTERN")] = pat
+    reg.module_consts[(MBOX, separator_pattern_name())] = pat
 
     def m_finditer(ex, st, obj, args, kwargs, node):
         """pattern.finditer(data): ASSUMED -- total; the matches are ordered, non-overlapping, non-empty, inside data."""
